@@ -437,6 +437,33 @@ func runC10(w *World, r *Report) {
 		}
 	}
 
+	r.Rule("C10.manager-derivations-complete", "every callback manager built in internal/callbacks (newManager, the per-unit copy of ReuseHandlers / withRunInfo, the copy taken out of a context) carries all three parts — global handlers, the run's handlers, the run info: a derived manager that forgets one silences those handlers for every tool call and inner unit", 3)
+	{
+		mT := w.Named("internal/callbacks", "manager")
+		st := mT.Underlying().(*types.Struct)
+		n := 0
+		for _, fn := range w.RepoFuncs("internal/callbacks") {
+			instrs(fn, func(in ssa.Instruction) {
+				al, ok := in.(*ssa.Alloc)
+				if !ok || !al.Heap || namedOf(al.Type()) != mT {
+					return
+				}
+				ws := fieldsWrittenOn(fn, al, mT)
+				n++
+				var missing []string
+				for i := 0; i < st.NumFields(); i++ {
+					if !ws[st.Field(i).Name()] {
+						missing = append(missing, st.Field(i).Name())
+					}
+				}
+				r.Check(len(missing) == 0, "C10.manager-derivations-complete", fmt.Sprintf("%s: manager literal #%d", w.fname(fn), n), al.Pos(), "all fields set", "the manager built here lacks "+strings.Join(missing, ", ")+": handlers registered that way (e.g. with AppendGlobalHandlers) still see the graph and its nodes but get no start / end / error for any tool call or inner unit, whose managers are derived through this function")
+			})
+		}
+		if n < 3 {
+			undecidedf("C10.manager-derivations-complete: only %d manager literals found", n)
+		}
+	}
+
 	r.Rule("C10.init-detaches", "InitCallbacks installs a manager (or nil) into the context on every path: it never returns the incoming context unchanged", 1)
 	{
 		ic := w.Fn("internal/callbacks", "InitCallbacks")
